@@ -125,7 +125,9 @@ pub fn values(class: usize, seed: u64, len: usize, n_hint: usize) -> Vec<f64> {
 			for _ in 0..len {
 				if left == 0 {
 					flat = !flat && r.chance(0.7);
-					left = if flat { n + 1 + r.below((2 * n) as u64 + 3) as usize } else { 3 + r.below((2 * n) as u64 + 10) as usize };
+					// flat stretches outlast the window; one in six is long whatever the window is (recursive kinds need ~40-100
+					// unchanged inputs before their decaying state reaches the rounding level of the price)
+					left = if flat { if r.chance(0.17) { 40 + r.below(150) as usize } else { n + 1 + r.below((2 * n) as u64 + 3) as usize } } else { 3 + r.below((2 * n) as u64 + 10) as usize };
 				}
 				left -= 1;
 				if !flat {
